@@ -4,6 +4,7 @@ package main
 // survives reload, restart, a crash between store writes, and a failed save consumes no number.
 
 import (
+	"encoding/json"
 	"fmt"
 	"sort"
 	"strings"
@@ -144,8 +145,61 @@ func c01Gen(rt *rapid.T) wProg {
 		}
 		return op
 	}
+	if gPct(rt, 30) {
+		p.Cfg.Calls = true
+	}
+	// sessions of the two P2P participants (every layout has both)
+	sa, sb := -1, -1
+	for s, u := range p.Sess {
+		if u == 0 && sa < 0 {
+			sa = s
+		}
+		if u == 1 && sb < 0 {
+			sb = s
+		}
+	}
 	for i := 0; i < n; i++ {
 		switch x := gInt(rt, 0, 99, "opk"); {
+		case p.Cfg.Calls && x < 10:
+			// a video call in the P2P topic: the server itself writes messages (the call's outcome) into the
+			// same numbering - when the ring timer runs out, when a party hangs up, when a party's connection
+			// is dropped for not reading - while the participants go on publishing
+			a, b, ta, tb := sa, sb, "p1", "p0"
+			if gPct(rt, 40) {
+				a, b, ta, tb = sb, sa, "p0", "p1"
+			}
+			p.Ops = append(p.Ops, wOp{K: "sub", S: a, T: ta}, wOp{K: "sub", S: b, T: tb},
+				wOp{K: "pub", S: a, T: ta, A: "call", H: map[string]any{"webrtc": "started", "mime": c15Mime}})
+			w, tw := a, ta // who publishes next to the call
+			if gPct(rt, 50) {
+				w, tw = b, tb
+			}
+			switch v := gInt(rt, 0, 9, "callv"); {
+			case v < 3:
+				// nobody answers; a publish arrives at the moment the ring timer fires
+				p.Ops = append(p.Ops, wOp{K: "pub", S: w, T: tw, At: "call", AtUs: gPick(rt, []int{-3, -2, -1, 0, 0, 0, 1, 2, 4}, "callus")}, wOp{K: "tick", N: 100}, wOp{K: "pub", S: w, T: tw})
+			case v < 4:
+				p.Ops = append(p.Ops, wOp{K: "tick", N: 31000}, wOp{K: "pub", S: w, T: tw})
+			case v < 6:
+				// the caller gives up / the callee declines, somebody publishes
+				p.Ops = append(p.Ops, wOp{K: "note", S: gPick(rt, []int{a, b}, "hup"), T: gPick(rt, []string{ta}, "hupt"), A: "call", B: "hang-up", M: 1}, wOp{K: "pub", S: w, T: tw})
+				if last := &p.Ops[len(p.Ops)-2]; last.S == b {
+					last.T = tb
+				}
+			default:
+				// the call is answered; then the callee's (or caller's) connection stops reading while the other
+				// side keeps writing, until the server drops it in the middle of delivering a message
+				p.Ops = append(p.Ops, wOp{K: "note", S: b, T: tb, A: "call", B: "accept", M: 1}, pub())
+				stuck, writer, twr := b, a, ta
+				if gPct(rt, 30) {
+					stuck, writer, twr = a, b, tb
+				}
+				p.Ops = append(p.Ops, wOp{K: "pause", S: stuck}, wOp{K: "flood", S: writer, T: twr, N: gPick(rt, []int{150, 155, 157, 158}, "nflood")})
+				for k, m := 0, gInt(rt, 3, 8, "npost"); k < m; k++ {
+					p.Ops = append(p.Ops, wOp{K: "pub", S: writer, T: twr})
+				}
+				p.Ops = append(p.Ops, wOp{K: "resume", S: stuck}, wOp{K: "sub", S: stuck, T: map[int]string{a: ta, b: tb}[stuck]}, wOp{K: "pub", S: stuck, T: map[int]string{a: ta, b: tb}[stuck]})
+			}
 		case x < 42:
 			p.Ops = append(p.Ops, pub())
 		case x < 56:
@@ -269,10 +323,12 @@ type c01Obs struct {
 	features   map[string]bool
 	afterCrash map[string]bool // routes that must accept the next valid publish
 	anyFault   bool            // a store failure or a crash point was delivered earlier in the history
+	callSeq    map[string]int  // route -> number of the latest call invitation (what call events refer to)
+	server     int             // messages the server wrote itself (call outcomes) and which were accounted for
 }
 
 func newC01Obs() *c01Obs {
-	return &c01Obs{topics: map[string]*c01Topic{}, pubSess: map[int]bool{}, features: map[string]bool{}, afterCrash: map[string]bool{}}
+	return &c01Obs{topics: map[string]*c01Topic{}, pubSess: map[int]bool{}, features: map[string]bool{}, afterCrash: map[string]bool{}, callSeq: map[string]int{}}
 }
 
 func (o *c01Obs) topic(route string) *c01Topic {
@@ -285,6 +341,9 @@ func (o *c01Obs) topic(route string) *c01Topic {
 }
 
 func (o *c01Obs) Before(w *wWorld, op *wOp) {
+	if w.noteSeq == nil {
+		w.noteSeq = func(route string, sel int) int { return o.callSeq[route] }
+	}
 	o.preSeq = map[string]int{}
 	for route := range o.topics {
 		if seq, _, ok := mem.A.TopicCounters(route); ok {
@@ -373,10 +432,50 @@ func (o *c01Obs) After(w *wWorld, st *wStep) *kit.Viol {
 			}
 		}
 	}
+	for _, s := range steps {
+		if s.Op.K == "pub" && !s.Skipped && s.Op.H != nil && s.Op.H["webrtc"] == "started" {
+			if c := wCtrl(st.Frames[s.Sess], s.ReqID); c != nil && c.Code == 202 {
+				o.callSeq[s.Route] = c01Seq(c)
+			}
+		}
+	}
 	// acknowledged numbers: exactly the next ones, per topic
 	byRoute := map[string][]ack{}
 	for _, a := range acks {
 		byRoute[a.route] = append(byRoute[a.route], a)
+	}
+	// messages the server wrote itself (the outcome of a call: they refer to the invitation and carry its
+	// state) take their numbers from the same sequence: each number is one publish or one such message
+	if w.cfg.Calls {
+		snap := mem.A.Snapshot()
+		if st.Op.K == "flood" && !st.Skipped {
+			// (the publishes of a flood carry no id and are not acknowledged: the count is taken from the store)
+			t := o.topic(st.Route)
+			for _, m := range snap.Msgs {
+				if m.Topic == st.Route && m.SeqId > t.last {
+					t.last = m.SeqId
+				}
+			}
+			o.features["flood"] = true
+		}
+		for _, m := range snap.Msgs {
+			t := o.topics[m.Topic]
+			if t == nil || m.SeqId <= t.last || len(m.Head) == 0 {
+				continue
+			}
+			var head map[string]any
+			if json.Unmarshal(m.Head, &head) != nil {
+				continue
+			}
+			ws, _ := head["webrtc"].(string)
+			rp, _ := head["replace"].(string)
+			if ws == "" || rp == "" {
+				continue
+			}
+			byRoute[m.Topic] = append(byRoute[m.Topic], ack{m.Topic, m.SeqId, fmt.Sprintf("server:%s:%s#%d", ws, rp, m.SeqId)})
+			o.server++
+			o.features["server-written:"+ws] = true
+		}
 	}
 	for route, as := range byRoute {
 		t := o.topic(route)
@@ -403,7 +502,9 @@ func (o *c01Obs) After(w *wWorld, st *wStep) *kit.Viol {
 			if prev, dup := t.bySeq[a.seq]; dup && prev != a.tok {
 				return kit.V("number-issued-twice", "topic %s: #%d acknowledged for %s was already used by %s", route, a.seq, a.tok, prev)
 			}
-			t.tokens[a.tok] = a.seq
+			if !strings.HasPrefix(a.tok, "server:") {
+				t.tokens[a.tok] = a.seq
+			}
 			t.bySeq[a.seq] = a.tok
 		}
 		t.last = as[len(as)-1].seq
@@ -420,6 +521,9 @@ func (o *c01Obs) After(w *wWorld, st *wStep) *kit.Viol {
 				tok, _ := f.Data.Content.(string)
 				if tok == "" {
 					continue
+				}
+				if ws, _ := f.Data.Head["webrtc"].(string); ws != "" && f.Data.Head["replace"] != nil {
+					continue // the outcome of a call, written by the server: it repeats the invitation's content
 				}
 				var t *c01Topic
 				for _, ct := range o.topics {
